@@ -74,6 +74,9 @@ let dispatch (f : string) (a : v list) : string =
   | "parse_deletion_date", [VS c] -> popt pdt (parse_deletion_date c)
   | "maybe_parse_deletion_date", [VS c] -> ps (maybe_parse_deletion_date c)
   | "parse_original_location", [VS c; VS v] -> popt ps (parse_original_location c v)
+  | "calc_parent_path", [VS p; VS v; VB rel] -> ps (calc_parent_path p v (if rel then RelativePaths else AbsolutePaths))
+  | "orig_loc_parent_arg", [VS p] -> ps (orig_loc_parent_arg p)
+  | "orig_loc_result", [VS p; VS pr; VS v; VB rel] -> ps (orig_loc_result p pr v (if rel then RelativePaths else AbsolutePaths))
   | _ -> failwith ("unknown function or arity: " ^ f)
 
 let () =
